@@ -202,6 +202,8 @@ EXPR_ZOO = [
     "(Integer(0) == Integer(0)).if_else(undefined_a, undefined_b)", "x0.if_else(undefined_name, [1])",
     "'a\x0cb'", "'a\x1cb'", "'a\u2028b'", "'\x85'", "'é漢'", "Party(name='Zoë')", "'\x0b'",
 ]
+# integer literals beyond the interpreter's int -> str digit limit (legal in hexadecimal, octal and binary notation)
+EXPR_ZOO += ["0x" + "f" * 4096, "0o7" + "1" * 5000, "0b1" + "0" * 15000, "-0x" + "9a" * 2200, "x0 + 0x" + "f" * 4000, "[0x" + "ab" * 2100 + "]"]
 COMMENTS = ["", "", "  # a comment", "  # <b>html & entities</b>", "\t# tab", "  # é漢 naïve", "  # page\x0cbreak", "  # sep\u2028arator",
             "  # \x1c\x1d\x1e\x85"]
 
